@@ -831,6 +831,43 @@ def body_formulas(src):
     return out
 
 
+# ------------------------------------------------------------------ arg-min selection idiom of otsu.py
+
+def otsu_selection(src):
+    """For every function of otsu.py: how the minimising split is selected.  Normal form `ExactMin`: the positions
+    are np.argwhere(S == m) where m is S.min() / np.min(S) (directly or through a single-assignment local), in either
+    operand order.  Anything else (np.isclose, <=, a tolerance, argmin on a transformed array) -> OtherSel."""
+    tree = ast.parse(src)
+    out = []
+    for fn in tree.body:
+        if not isinstance(fn, ast.FunctionDef):
+            continue
+        locs = {}
+        for n in ast.walk(fn):
+            if isinstance(n, ast.Assign) and len(n.targets) == 1 and isinstance(n.targets[0], ast.Name):
+                locs.setdefault(n.targets[0].id, []).append(n.value)
+
+        def is_min_of(e, arr):
+            if isinstance(e, ast.Name) and len(locs.get(e.id, [])) == 1:
+                e = locs[e.id][0]
+            if (isinstance(e, ast.Call) and isinstance(e.func, ast.Attribute) and e.func.attr == "min" and not e.args
+                    and not e.keywords and ast.dump(e.func.value) == ast.dump(arr)):
+                return True
+            return (isinstance(e, ast.Call) and ast.get_source_segment(src, e.func) in ("np.min", "numpy.min", "np.amin")
+                    and len(e.args) == 1 and not e.keywords and ast.dump(e.args[0]) == ast.dump(arr))
+        for n in ast.walk(fn):
+            if isinstance(n, ast.Call) and ast.get_source_segment(src, n.func) in ("np.argwhere", "np.argmin", "np.nonzero",
+                                                                                  "np.where", "np.flatnonzero"):
+                ok = False
+                if ast.get_source_segment(src, n.func) == "np.argwhere" and len(n.args) == 1 and not n.keywords:
+                    c = n.args[0]
+                    if isinstance(c, ast.Compare) and len(c.ops) == 1 and isinstance(c.ops[0], ast.Eq):
+                        a, b = c.left, c.comparators[0]
+                        ok = (isinstance(a, ast.Name) and is_min_of(b, a)) or (isinstance(b, ast.Name) and is_min_of(a, b))
+                out.append((fn.name, "ExactMin" if ok else "OtherSel %s" % coq_string(ast.get_source_segment(src, n))))
+    return out
+
+
 def translate(src, smooth_src=None, otsu_src=None):
     tree = ast.parse(src)
     fns = {n.name: n for n in tree.body if isinstance(n, ast.FunctionDef)}
@@ -892,6 +929,13 @@ def translate(src, smooth_src=None, otsu_src=None):
     lines += ["Open Scope Q_scope."] + body_formulas(src) + ["Close Scope Q_scope.", ""]
     if smooth_src is not None and otsu_src is not None:
         uses = random_uses("threshold", src) + random_uses("smooth", smooth_src) + random_uses("otsu", otsu_src)
+        sel = otsu_selection(otsu_src)
+        lines += [
+            "(* how each function of otsu.py selects the minimising split *)",
+            "Definition otsu_selection : list (string * selection) :=",
+            "  [" + "; ".join("(%s, %s)" % (coq_string(f), u) for f, u in sel) + "].",
+            "",
+        ]
         lines += [
             "(* every use of a NumPy random stream in threshold.py, smooth.py, otsu.py *)",
             "Definition threshold_random_uses : list (string * rand_use) :=",
